@@ -749,12 +749,14 @@ fn gen_interp() -> Vec<Case> {
     let elems: Vec<Vec<u8>> = vec![vec![], vec![1], sig.clone(), pk.clone(), ws.clone(), redeem_wpkh.clone(), redeem_wsh.clone(), vec![0x50, 1, 2], vec![0xc0; 33], vec![0xc1; 65], vec![7; 64]];
     let mut seqs: Vec<Vec<Vec<u8>>> = vec![vec![]];
     for len in 1..=3usize {
-        let total = elems.len().pow(len as u32);
+        // length 3 over the first seven elements (the remaining four differ only in junk content)
+        let ne = if len == 3 { 7 } else { elems.len() };
+        let total = ne.pow(len as u32);
         for mut code in 0..total {
             let mut v = vec![];
             for _ in 0..len {
-                v.push(elems[code % elems.len()].clone());
-                code /= elems.len();
+                v.push(elems[code % ne].clone());
+                code /= ne;
             }
             seqs.push(v);
         }
